@@ -73,6 +73,7 @@ Inductive op :=
 | ORemove (l : loc)                (* linux.rs delete_file: errors ignored *)
 | ORequireRunnable (l : loc)       (* running.rs proxy_agent_version_target_folder: panic (101) *)
 | ORequire (l : loc)               (* linux.rs copy_service_config_file failing: process::exit(1) *)
+| OMoveIf (guard src dst : loc)    (* linux.rs backup_files: fs::rename(src, dst) when the copy from [guard] succeeded *)
 | ORemoveUnitReload                (* linux_service.rs delete_service_config_file *)
 | ORemoveBackupDir.                (* main.rs delete_backup_folder *)
 
@@ -112,6 +113,13 @@ Definition remove (l : loc) (w : world) : world :=
   | None => w
   end.
 
+(* fs::rename(src, dst): atomic; dst replaced, src gone *)
+Definition move (src dst : loc) (w : world) : world :=
+  match fs_get src (wfs w) with
+  | Some f => emit (EWrite dst) (set_fs (fs_set dst f (fs_del src (wfs w))) w)
+  | None => w
+  end.
+
 Definition remove_backup_dir (w : world) : world :=
   emit ERemoveBackupDir (set_fs (fs_del_where in_backup (wfs w)) w).
 
@@ -126,6 +134,7 @@ Definition step_op (o : op) (w : world) : option world :=
   | ORemove l => Some (remove l w)
   | ORequireRunnable l => if version_ok l w then Some w else None
   | ORequire l => if fs_has l (wfs w) then Some w else None
+  | OMoveIf g s d => if fs_has g (wfs w) then Some (move s d w) else Some w
   | ORemoveUnitReload =>
       if fs_has SysUnit (wfs w) then Some (call VDaemonReload (remove SysUnit w)) else Some w
   | ORemoveBackupDir => Some (remove_backup_dir w)
@@ -158,9 +167,11 @@ Definition setup_service_ops (unit_src : loc) : list op :=
 Definition copy_files_ops (exe cfg ebpf : loc) : list op :=
   [OCopy exe SysExe; OCopy cfg SysCfg; OCopy ebpf SysEbpf].
 
-(* linux.rs backup_files *)
+(* linux.rs backup_files: configuration, eBPF object, unit file; the executable -- the file
+   check_backup_exists takes as the sign of a backup -- LAST, copied to azure-proxy-agent.tmp and
+   renamed onto its final name only if that copy succeeded *)
 Definition backup_ops : list op :=
-  [OCopy SysCfg BakCfg; OCopy SysEbpf BakEbpf; OCopy SysExe BakExe; OCopy SysUnit BakUnit].
+  [OCopy SysCfg BakCfg; OCopy SysEbpf BakEbpf; OCopy SysUnit BakUnit; OCopy SysExe BakTmp; OMoveIf SysExe BakTmp BakExe].
 
 (* main.rs Command::Install: stop_service; copy_proxy_agent (version of the packaged agent
    first); setup_service(.., current exe dir) *)
@@ -201,10 +212,11 @@ Definition exit_code (c : cmd) (w : world) : N :=
 Definition run (cmds : list cmd) (w : world) : world := fold_left (fun w c => exec c w) cmds w.
 
 (* CRASH POINTS INSIDE BACKUP (process death: SIGKILL, OOM, extension time-out).  `backup` is four
-   fs::copy calls; the tool can die between any two of them -- [backup_crash j]: the first j copies
-   are complete -- or inside one, which leaves the copy's destination created but empty, filled but
-   with the creation mode, or complete -- [inflight l f]: an arbitrary file f sits at the destination
-   l of the copy in progress. *)
+   fs::copy calls and one rename; the tool can die between any two of them -- [backup_crash j]: the
+   first j operations are complete -- or inside a copy, which leaves the copy's destination created
+   but empty, filled but with the creation mode, or complete -- [inflight l f]: an arbitrary file f
+   sits at the destination l of the copy in progress (never the final name of the executable: that
+   one only ever appears by rename). *)
 Definition backup_crash (j : nat) (w : world) : world := run_ops (firstn j backup_ops) (banner Backup w).
 Definition inflight (l : loc) (f : file) (w : world) : world := set_fs (fs_set l f (wfs w)) w.
 
@@ -225,21 +237,6 @@ Definition KnownClass_C17_agent_not_runnable (w : world) : bool :=
   four_present w && negb (version_ok SysExe w).
 (* no backup entry at the four computed backup locations *)
 Definition no_backup (w : world) : bool := forallb (fun l => negb (fs_has l (wfs w))) bak_locs.
-(* KNOWN FINDING C17-K2 (known_findings.d/C17.json): `backup` died while saving the executable or
-   the unit file.  w0 = the world before backup, w1 = the world the cut backup left: the marker
-   executable is there, configuration and eBPF object are saved (content), but the backup is not
-   the complete copy of the four installed files.  `restore` accepts it (check_backup_exists looks
-   at the executable only). *)
-Definition same_data (a b : option file) : bool :=
-  match a, b with Some x, Some y => beq (snd x) (snd y) | _, _ => false end.
-Definition same_file (a b : option file) : bool :=
-  match a, b with Some x, Some y => (fst x =? fst y) && beq (snd x) (snd y) | None, None => true | _, _ => false end.
-Definition backup_complete (w0 w1 : world) : bool :=
-  same_file (fs_get BakExe (wfs w1)) (fs_get SysExe (wfs w0)) && same_file (fs_get BakCfg (wfs w1)) (fs_get SysCfg (wfs w0)) &&
-  same_file (fs_get BakEbpf (wfs w1)) (fs_get SysEbpf (wfs w0)) && same_file (fs_get BakUnit (wfs w1)) (fs_get SysUnit (wfs w0)).
-Definition KnownClass_C17_backup_cut (w0 w1 : world) : bool :=
-  fs_has BakExe (wfs w1) && same_data (fs_get BakCfg (wfs w1)) (fs_get SysCfg (wfs w0)) &&
-  same_data (fs_get BakEbpf (wfs w1)) (fs_get SysEbpf (wfs w0)) && negb (backup_complete w0 w1).
 (* a complete package sits beside the tool *)
 Definition package_complete (w : world) : bool :=
   forallb (fun l => fs_has l (wfs w)) pkg_locs && version_ok PkgExe w.
@@ -281,7 +278,7 @@ Definition loc_code (l : loc) : N :=
   | SysExe => 0 | SysCfg => 1 | SysEbpf => 2 | SysUnit => 3
   | PkgExe => 4 | PkgCfg => 5 | PkgEbpf => 6 | PkgUnit => 7
   | BakExe => 8 | BakCfg => 9 | BakEbpf => 10 | BakUnit => 11
-  | BakOther _ => 12 | Outside _ => 13
+  | BakOther _ => 12 | Outside _ => 13 | BakTmp => 14
   end.
 Definition event_code (e : event) : N * N :=
   match e with
@@ -334,12 +331,12 @@ Definition standin_runnable (f : file) : bool :=
 
 Definition run_scenario (files : list (loc * file)) (extra_watch : list loc) (running enabled : bool)
     (cmds : list (cmd * list bool)) :=
-  run_obs_ix standin_runnable (map snd files) (fixed_locs ++ extra_watch) cmds (mk_world files running enabled).
+  run_obs_ix standin_runnable (map snd files) (fixed_locs ++ BakTmp :: extra_watch) cmds (mk_world files running enabled).
 
 
 (* the crash states of `backup` from a given tree, for the correspondence run: the four backup
-   locations after 0..4 completed copies *)
+   locations and the temporary name after 0..5 completed operations *)
 Definition crash_scenario (files : list (loc * file)) : list (list (option N)) :=
   let w := mk_world files true true in
-  map (fun j => fst (fst (observe_ix (map snd files) bak_locs (backup_crash standin_runnable never_fails j w))))
-      [0; 1; 2; 3; 4]%nat.
+  map (fun j => fst (fst (observe_ix (map snd files) (bak_locs ++ [BakTmp]) (backup_crash standin_runnable never_fails j w))))
+      [0; 1; 2; 3; 4; 5]%nat.
